@@ -37,16 +37,16 @@ def schedules(nblocks, max_nr):
 
 
 def harnesses(ctx, tier):
-    N = 5 if tier == "thorough" else 4
     hs = []
     if tier == "quick":
-        combos = [(1, 0x1), (2, 0x1), (2, 0x2), (2, 0x3), (3, 0x4)]
+        # (blocks, schedule, N): a not-ready answer BETWEEN two blocks (schedule 0x2) resumes on a heap of symbolic
+        # match lists and is by far the most expensive shape: it is run on 3 bytes
+        combos = [(1, 0x1, 4), (2, 0x1, 4), (2, 0x3, 4), (2, 0x2, 3)]
     else:
-        combos = [(nb, s) for nb in (1, 2, 3) for s in schedules(nb, 2)]
-    for nb, s in combos:
+        combos = [(nb, s, 4) for nb in (1, 2) for s in schedules(nb, 2)] + [(3, 0x4, 3), (3, 0x2, 3)]
+    for nb, s, N in combos:
         hs.append(nr_h("found", "$a", N, nb, s))
-    hs.append(nr_h("count", "#a == 2", N, 2, 0x2))
     if tier == "thorough":
-        hs.append(nr_h("offset", "@a[1] == 2", N, 2, 0x2))
-        hs.append(nr_h("uint8", "$a and uint8(1) == 0x62", N, 2, 0x2))
+        hs.append(nr_h("count", "#a == 2", 3, 2, 0x2))
+        hs.append(nr_h("uint8", "$a and uint8(1) == 0x62", 3, 2, 0x2))
     return hs
